@@ -475,6 +475,16 @@ func reaches(from, to *ssa.BasicBlock) bool {
 	return rec(from)
 }
 
+// inCycle: block b lies on a CFG cycle (some successor reaches b again).
+func inCycle(b *ssa.BasicBlock) bool {
+	for _, s := range b.Succs {
+		if reaches(s, b) {
+			return true
+		}
+	}
+	return false
+}
+
 // selectCaseBlock finds the block executed when select state idx fires: the true
 // successor of `if extract(sel,0) == idx`.
 func selectCaseBlock(sel *ssa.Select, idx int) *ssa.BasicBlock {
